@@ -31,6 +31,17 @@
                  u16 count, count x (u16 featureIndex, u32 alternateFeatureOffset); Feature = u16 params, u16 count,
                  u16 lookup indices
        tuple     the variation tuple handed to gsub::apply: F2Dot14 raw values; () = None
+   TREE may have an optional sixth element (then the fifth is an fvx or `()` = none): the case goes through
+   Font::shape on a synthetic font (cmap / head / maxp with num_glyphs / hhea / hmtx + the tables below):
+     font    = ( gpos gdef kern kerning morx )
+       gpos     0: no GPOS table, 1: GPOS 1.0 with NULL list offsets, 2: unreadable (truncated) GPOS, 3: GPOS 1.0 with
+                empty script / feature / lookup lists
+       gdef     0: the font has no GDEF table, 1: the font's GDEF is the case's gdef, 2: unreadable GDEF table
+       kern     0: none, 1: version 0 without subtables, 2: unreadable        kerning  the flag given to Font::shape
+       morx     1: an unreadable morx table (never used: the font has GSUB)
+     output of such a case:  shape[E] ok:G,... ~ D     E = `-` or the error Font::shape returned (the glyphs are
+     those of the Infos either way), D = the output of gsub::apply called directly on the same GSUB bytes with the
+     GDEF the font carries (readable) and the font's dotted-circle glyph
    output = ok:G,G,...[|length]  with G = id:c.c.c:pos:origin:LDV:rest   |  err:E  |  panic  |  gsub-unreadable:E *)
 open Model
 open Zconv
@@ -176,6 +187,52 @@ let split_top (tree : t) : (t * t * t * t * fvx option) =
   | L [gd; lay; run; gl; x] -> (gd, lay, run, gl, Some (fvx_ x))
   | _ -> failwith "c04 input"
 
+(* ---- Font::shape: the optional sixth element.  What Font::shape decides before it calls gsub::apply is which
+   tables reach it: the font's GSUB (unreadable: nothing is substituted), the font's GDEF (absent or unreadable:
+   substitution runs without glyph classes) -- whatever else the font holds (GPOS, kern, morx) and whatever the
+   kerning flag says.  `split_font` rewrites such a case into the plain gsub::apply case with exactly these tables;
+   everything below (model, feature-variations oracle, judge) then works on the rewritten line. *)
+type font = { f_gpos : int; f_gdef : int; f_kern : int; f_kerning : int; f_morx : int }
+
+let rec tree_to_string = function
+  | I z -> z_to_string z
+  | L l -> "(" ^ String.concat " " (List.map tree_to_string l) ^ ")"
+
+let split_font (input : string) : string * font option =
+  let (_, tree) = split_input input in
+  let line elems = String.make 1 input.[0] ^ " " ^ tree_to_string (L elems) in
+  match tree with
+  | L [gd; lay; run; gl; fx; L [I a; I b; I c; I d; I e]] ->
+    let f = { f_gpos = zi a; f_gdef = zi b; f_kern = zi c; f_kerning = zi d; f_morx = zi e } in
+    let gd' = if f.f_gdef = 1 then gd else L [] in
+    (line ([gd'; lay; run; gl] @ (if fx = L [] then [] else [fx])), Some f)
+  | L [gd; lay; run; gl; L []] -> (line [gd; lay; run; gl], None)
+  | _ -> (input, None)
+
+(* a table of the font that Font::shape loads and cannot read: it reports the first such error (and forges ahead) *)
+let font_table_error (f : font) : bool = f.f_gpos = 2 || f.f_gdef = 2 || f.f_kern = 2 || f.f_morx = 1
+
+(* what Font::shape must return, given the result `base` of gsub::apply on the tables the font carries:
+   `shape[E] ok:G`; E = `-`, an error name, or `*` (some error: which one an unreadable GPOS / GDEF / kern / morx
+   table produces is not C04's business); G = `?` when substitution itself failed (state of the run unspecified) *)
+let shape_expected (f : font) (input_glyphs : string) (base : string) : string =
+  let env = font_table_error f in
+  if starts_with "ok:" base then
+    (let b = String.sub base 3 (String.length base - 3) in
+     Printf.sprintf "shape[%s] ok:%s" (if env then "*" else "-") b)
+  else if starts_with "gsub-unreadable:" base then
+    (* gsub_cache() is the first table loaded: its error is the one reported, the glyphs stay as they were *)
+    Printf.sprintf "shape[%s] ok:%s" (String.sub base 16 (String.length base - 16)) input_glyphs
+  else if starts_with "err:" base then
+    Printf.sprintf "shape[%s] ok:?" (if env then "*" else String.sub base 4 (String.length base - 4))
+  else base
+
+let input_glyphs_of (input : string) : string =
+  let (_, tree) = split_input input in
+  match tree with
+  | L (_ :: _ :: _ :: gl :: _) -> glyphs_to_string (List.map glyph_ (list_ gl))
+  | _ -> failwith "c04 input"
+
 (* the table the model reads: a version 1.<minor> header without lists whose featureVariationsOffset points at the
    bytes (the real table has the lists in between; the FeatureVariations scope is the same byte string) *)
 let synthetic_table (x : fvx) : z list =
@@ -198,7 +255,7 @@ let run_on (m : mode) (lay : layout_table) (gd : gdef option) (gs : glyph list) 
       (gsub_apply_lookup m lay.lt_lookups gd li tg (opt int_ alt) gs start length)
   | _ -> failwith "run"
 
-let run (input : string) : string =
+let run_core (input : string) : string =
   let (m, tree) = split_input input in
   let (gd, lay, run, gl, fx) = split_top tree in
   let gd = gdef_ gd in
@@ -381,7 +438,7 @@ let fv_expected (input : string) : (string * fv_decision) option =
 
 (* ---- histogram class of a case: run kind (A = gsub::apply, L<type> = gsub_apply_lookup on a lookup of
    that type), result kind, and whether the glyph ids changed *)
-let tag (input : string) (out : string) : string =
+let tag_core (input : string) (out : string) : string =
   let (_, tree) = try split_input input with _ -> (Debug, L []) in
   try
     match tree with
@@ -547,7 +604,7 @@ let judge_core (input : string) (impl : string) (model : string) : verdict =
    record recomputed from the bytes, lookup lists substituted in the abstract feature list, glyphs by the
    proved lookup-application model of the unvaried table); the extracted feature-variations model is compared
    separately: if it differs from an implementation that meets the oracle, that is a Mismatch. *)
-let judge (input : string) (impl : string) (model : string) : verdict =
+let judge_fv (input : string) (impl : string) (model : string) : verdict =
   match (try fv_expected input with _ -> None) with
   | None -> judge_core input impl model
   | Some (spec, dec) ->
@@ -565,3 +622,103 @@ let judge (input : string) (impl : string) (model : string) : verdict =
                       ^ fv_describe dec ^ ")")
      | Mismatch why -> Mismatch why
      | Violation (cls, why) -> Violation (cls, why ^ "; feature variations: " ^ fv_describe dec))
+
+(* ---- cases that go through Font::shape *)
+let find_sub (s : string) (p : string) : int option =
+  let n = String.length s and m = String.length p in
+  let rec go i = if i + m > n then None else if String.sub s i m = p then Some i else go (i + 1) in
+  go 0
+
+let run (input : string) : string =
+  match split_font input with
+  | (i, None) -> run_core i
+  | (i, Some f) -> shape_expected f (input_glyphs_of i) (run_core i)
+
+(* `shape[E] R` -> (E, R) *)
+let split_shape (s : string) : (string * string) option =
+  if starts_with "shape[" s then
+    (match String.index_opt s ']' with
+     | Some k when k + 2 <= String.length s -> Some (String.sub s 6 (k - 6), String.sub s (k + 2) (String.length s - k - 2))
+     | _ -> None)
+  else None
+
+let split_impl (impl : string) : string * string option =
+  match find_sub impl " ~ " with
+  | Some k -> (String.sub impl 0 k, Some (String.sub impl (k + 3) (String.length impl - k - 3)))
+  | None -> (impl, None)
+
+let tag (input : string) (out : string) : string =
+  match (try split_font input with _ -> (input, None)) with
+  | (i, None) -> tag_core i out
+  | (i, Some f) ->
+    let (s, _) = split_impl out in
+    let (e, res) = (match split_shape s with Some x -> x | None -> ("-", s)) in
+    (* S<GPOS absent - / present + / unreadable ?><GDEF likewise>/<result>[!: Font::shape returned an error] *)
+    let t = tag_core i res in
+    let t = (match String.index_opt t '/' with Some k -> String.sub t k (String.length t - k) | None -> "/" ^ t) in
+    let sign = function 0 -> "-" | 2 -> "?" | _ -> "+" in
+    Printf.sprintf "S:gpos%s:gdef%s%s%s" (sign f.f_gpos) (sign f.f_gdef) t (if e <> "-" then "!" else "")
+
+(* What Font::shape returned, as the output the plain gsub::apply case would have had -- `reference` (an output of
+   gsub::apply on the tables the font carries: the direct call, or the model's) tells which of the three situations
+   an error belongs to.  Returns the plain output and whether the error report is as it should be. *)
+let plain_of_shape (f : font) (input_glyphs : string) (got : string) (reference : string) : (string * string option) option =
+  match split_shape got with
+  | None -> None
+  | Some (e, r) ->
+    let env = font_table_error f in
+    if starts_with "gsub-unreadable:" reference then
+      (if e = "-" then Some (r, Some "Font::shape reports no error for an unreadable GSUB table")
+       else if r = "ok:" ^ input_glyphs then Some ("gsub-unreadable:" ^ e, None)
+       else Some (r, None))
+    else if starts_with "err:" reference then
+      (if e = "-" then Some (r, None)               (* judged as `ok` against `err` *)
+       else if env then Some (reference, None)       (* the first error is the unreadable table's *)
+       else Some ("err:" ^ e, None))
+    else
+      Some (r, (if env && e = "-" then Some "Font::shape reports no error although a table of the font is unreadable"
+                else if (not env) && e <> "-" then Some ("Font::shape reports " ^ e ^ " although every table is readable and substitution succeeded")
+                else None))
+
+let judge (input : string) (impl : string) (model : string) : verdict =
+  match (try split_font input with _ -> (input, None)) with
+  | (i, None) -> judge_fv i impl model
+  | (i, Some f) ->
+    if starts_with "MODEL-EXN" model then Mismatch "model driver failed to parse the case"
+    else if starts_with "gdef-unreadable:" impl then Mismatch "the case's GDEF does not parse"
+    else begin
+      let (got, direct) = split_impl impl in
+      let gl = input_glyphs_of i in
+      let font_desc = Printf.sprintf "font: GPOS %s, GDEF %s"
+          (match f.f_gpos with 0 -> "absent" | 2 -> "unreadable" | _ -> "present")
+          (match f.f_gdef with 0 -> "absent" | 2 -> "unreadable" | _ -> "present") in
+      if got = "panic" then
+        Violation ("panic", "Font::shape panicked (" ^ font_desc ^ "); specified " ^ (String.sub model 0 (min 60 (String.length model))))
+      else begin
+        (* 1. model independent: Font::shape against gsub::apply called directly on the font's own tables *)
+        let v1 =
+          (match direct with
+           | None | Some "panic" -> Agree
+           | Some d ->
+             (match plain_of_shape f gl got d with
+              | None -> Agree
+              | Some (plain, _) ->
+                if plain = d then Agree else
+                  (match judge_core i plain d with
+                   | Violation (_, why) ->
+                     Violation ("shape", Printf.sprintf "Font::shape differs from gsub::apply on the font's own GSUB and GDEF tables: %s [here `specified` = the direct call] (%s)" why font_desc)
+                   | _ -> Agree))) in
+        match v1 with
+        | Violation _ -> v1
+        | _ ->
+          (* 2. against the specification: model / feature-variations oracle on the rewritten case *)
+          let base = run_core i in
+          (match plain_of_shape f gl got base with
+           | None -> Mismatch ("Font::shape output not understood: " ^ (String.sub got 0 (min 40 (String.length got))))
+           | Some (plain, note) ->
+             (match judge_fv i plain base with
+              | Agree -> (match note with Some why -> Mismatch why | None -> Agree)
+              | Mismatch why -> Mismatch why
+              | Violation (cls, why) -> Violation (cls, why ^ " (through Font::shape; " ^ font_desc ^ ")")))
+      end
+    end
